@@ -9,7 +9,8 @@ Definition inode := nat.
 Definition model := nat.
 
 Record inode_info := { content : model; modified : bool }.   (* modified: overwritten in place after creation *)
-Record handle_info := { mapped : inode; made_from : model; opened_as : option path }.
+Record handle_info := { mapped : inode; made_from : model; opened_as : option path;
+                        has_model : bool (* made by compile (the instance holds its model) / by load (it does not) *) }.
 
 Record pstate := {
   fs : list (path * inode);
@@ -19,7 +20,11 @@ Record pstate := {
 
 Definition empty : pstate := {| fs := []; inodes := []; handles := [] |}.
 
-Inductive op := OCompile (m : model) (save : option path) | OLoad (p : path) | OCall (h : nat).
+(* ORecompile h save: compile(save_lib_path=save) called again on the instance behind handle h *)
+Inductive op := OCompile (m : model) (save : option path) | OLoad (p : path) | OCall (h : nat)
+              | ORecompile (h : nat) (save : option path).
+(* the "model" an empty logic_net computes (what code generation from an instance without a model yields) *)
+Definition EMPTY : model := 999.
 Inductive outcome := RHandle (h : nat) | RValue (m : model) | RCrash | RError.
 
 Fixpoint lookup {A} (k : nat) (l : list (nat * A)) : option A :=
@@ -31,8 +36,9 @@ Fixpoint set_nth {A} (n : nat) (v : A) (l : list A) : list A :=
 
 Definition new_inode (s : pstate) (m : model) : pstate * inode :=
   ({| fs := fs s; inodes := inodes s ++ [{| content := m; modified := false |}]; handles := handles s |}, length (inodes s)).
-Definition new_handle (s : pstate) (i : inode) (m : model) (as_path : option path) : pstate * nat :=
-  ({| fs := fs s; inodes := inodes s; handles := handles s ++ [{| mapped := i; made_from := m; opened_as := as_path |}] |},
+Definition new_handle (s : pstate) (i : inode) (m : model) (as_path : option path) (hm : bool) : pstate * nat :=
+  ({| fs := fs s; inodes := inodes s;
+      handles := handles s ++ [{| mapped := i; made_from := m; opened_as := as_path; has_model := hm |}] |},
    length (handles s)).
 
 (* dlopen(path) returns an already loaded library that was opened under the same path name *)
@@ -43,25 +49,33 @@ Definition cached (s : pstate) (p : path) : option nat :=
      | h :: r => match opened_as h with Some q => if q =? p then Some k else go r (S k) | None => go r (S k) end
      end) (handles s) 0.
 
-Definition step (sv : save_discipline) (ld : load_discipline) (s : pstate) (o : op) : pstate * outcome :=
+(* compile's save branch, after the temporary build: write the library to `save` *)
+Definition save_to (sv : save_discipline) (s1 : pstate) (m : model) (save : option path) : pstate :=
+  match save with
+  | None => s1
+  | Some p =>
+      match sv with
+      | InPlace =>
+          match lookup p (fs s1) with
+          | Some ip => {| fs := fs s1; inodes := set_nth ip {| content := m; modified := true |} (inodes s1); handles := handles s1 |}
+          | None => let '(s', inew) := new_inode s1 m in {| fs := assign p inew (fs s'); inodes := inodes s'; handles := handles s' |}
+          end
+      | AtomicRename =>
+          let '(s', inew) := new_inode s1 m in {| fs := assign p inew (fs s'); inodes := inodes s'; handles := handles s' |}
+      end
+  end.
+
+(* the instance behind handle h loads a new temporary build (its earlier library stays mapped, nothing is closed) *)
+Definition remap (s : pstate) (h : nat) (hi : handle_info) (i : inode) : pstate :=
+  {| fs := fs s; inodes := inodes s;
+     handles := set_nth h {| mapped := i; made_from := made_from hi; opened_as := opened_as hi; has_model := has_model hi |} (handles s) |}.
+
+Definition step (sv : save_discipline) (ld : load_discipline) (rc : recompile_discipline) (s : pstate) (o : op) : pstate * outcome :=
   match o with
   | OCompile m save =>
       let '(s1, it) := new_inode s m in                      (* temporary build *)
-      let s2 :=
-        match save with
-        | None => s1
-        | Some p =>
-            match sv with
-            | InPlace =>
-                match lookup p (fs s1) with
-                | Some ip => {| fs := fs s1; inodes := set_nth ip {| content := m; modified := true |} (inodes s1); handles := handles s1 |}
-                | None => let '(s', inew) := new_inode s1 m in {| fs := assign p inew (fs s'); inodes := inodes s'; handles := handles s' |}
-                end
-            | AtomicRename =>
-                let '(s', inew) := new_inode s1 m in {| fs := assign p inew (fs s'); inodes := inodes s'; handles := handles s' |}
-            end
-        end in
-      let '(s3, h) := new_handle s2 it m None in (s3, RHandle h)    (* the instance loads its own temporary build *)
+      let s2 := save_to sv s1 m save in
+      let '(s3, h) := new_handle s2 it m None true in (s3, RHandle h)    (* the instance loads its own temporary build *)
   | OLoad p =>
       match lookup p (fs s) with
       | None => (s, RError)
@@ -72,15 +86,15 @@ Definition step (sv : save_discipline) (ld : load_discipline) (s : pstate) (o : 
               | Some h0 => (* same library object again *)
                   let i0 := match nth_error (handles s) h0 with Some hi => mapped hi | None => ip end in
                   let m0 := match nth_error (inodes s) ip with Some ii => content ii | None => 0 end in
-                  let '(s', h) := new_handle s i0 m0 (Some p) in (s', RHandle h)
+                  let '(s', h) := new_handle s i0 m0 (Some p) false in (s', RHandle h)
               | None =>
                   let m0 := match nth_error (inodes s) ip with Some ii => content ii | None => 0 end in
-                  let '(s', h) := new_handle s ip m0 (Some p) in (s', RHandle h)
+                  let '(s', h) := new_handle s ip m0 (Some p) false in (s', RHandle h)
               end
           | PrivateCopy =>
               let m0 := match nth_error (inodes s) ip with Some ii => content ii | None => 0 end in
               let '(s1, ic) := new_inode s m0 in
-              let '(s', h) := new_handle s1 ic m0 None in (s', RHandle h)
+              let '(s', h) := new_handle s1 ic m0 None false in (s', RHandle h)
           end
       end
   | OCall h =>
@@ -92,12 +106,29 @@ Definition step (sv : save_discipline) (ld : load_discipline) (s : pstate) (o : 
           | Some ii => if modified ii then (s, RCrash) else (s, RValue (content ii))
           end
       end
+  | ORecompile h save =>
+      match nth_error (handles s) h with
+      | None => (s, RError)
+      | Some hi =>
+          if has_model hi then
+            (* a second compile of an instance that holds its model: new build of the same model, saved, installed *)
+            let '(s1, it) := new_inode s (made_from hi) in
+            (remap (save_to sv s1 (made_from hi) save) h hi it, RHandle h)
+          else
+            match rc with
+            | Refuses => (s, RError)
+            | RebuildsEmpty =>
+                (* code generated from no model: an empty logic_net is built, written to `save` and installed in the handle *)
+                let '(s1, it) := new_inode s EMPTY in
+                (remap (save_to sv s1 EMPTY save) h hi it, RHandle h)
+            end
+      end
   end.
 
-Fixpoint run (sv : save_discipline) (ld : load_discipline) (s : pstate) (ops : list op) : list outcome :=
+Fixpoint run (sv : save_discipline) (ld : load_discipline) (rc : recompile_discipline) (s : pstate) (ops : list op) : list outcome :=
   match ops with
   | [] => []
-  | o :: r => let '(s', out) := step sv ld s o in out :: run sv ld s' r
+  | o :: r => let '(s', out) := step sv ld rc s o in out :: run sv ld rc s' r
   end.
 
 (* what the property demands of one step in state s *)
@@ -106,25 +137,38 @@ Definition expected (s : pstate) (o : op) (out : outcome) : Prop :=
   | OCall h, RValue m => exists hi, nth_error (handles s) h = Some hi /\ m = made_from hi
   | OCall h, RError => nth_error (handles s) h = None
   | OCall _, _ => False
+  | ORecompile h _, RHandle h' => h' = h /\ exists hi, nth_error (handles s) h = Some hi /\ has_model hi = true
+  | ORecompile h _, RError => forall hi, nth_error (handles s) h = Some hi -> has_model hi = false
+  | ORecompile _ _, _ => False
   | _, RCrash => False
   | _, _ => True
   end.
 
 (* ---------- the abstract specification: a map path -> latest saved model and the list of the models handles were made from *)
-Record spec := { saved : list (path * model); made : list model }.
-Definition spec_empty : spec := {| saved := []; made := [] |}.
+Record spec := { saved : list (path * model); made : list model; with_model : list bool }.
+Definition spec_empty : spec := {| saved := []; made := []; with_model := [] |}.
 
 Definition spec_step (a : spec) (o : op) : spec * outcome :=
   match o with
   | OCompile m save =>
-      ({| saved := match save with Some p => assign p m (saved a) | None => saved a end; made := made a ++ [m] |},
+      ({| saved := match save with Some p => assign p m (saved a) | None => saved a end; made := made a ++ [m];
+          with_model := with_model a ++ [true] |},
        RHandle (length (made a)))
   | OLoad p =>
       match lookup p (saved a) with
       | None => (a, RError)
-      | Some m => ({| saved := saved a; made := made a ++ [m] |}, RHandle (length (made a)))
+      | Some m => ({| saved := saved a; made := made a ++ [m]; with_model := with_model a ++ [false] |}, RHandle (length (made a)))
       end
   | OCall h => match nth_error (made a) h with Some m => (a, RValue m) | None => (a, RError) end
+  | ORecompile h save =>
+      (* an instance with a model saves that model again and keeps computing it; one without a model (from load) refuses,
+         and nothing changes *)
+      match nth_error (made a) h, nth_error (with_model a) h with
+      | Some m, Some true =>
+          ({| saved := match save with Some p => assign p m (saved a) | None => saved a end; made := made a;
+              with_model := with_model a |}, RHandle h)
+      | _, _ => (a, RError)
+      end
   end.
 
 Fixpoint spec_run (a : spec) (ops : list op) : list outcome :=
